@@ -261,7 +261,8 @@ class WireView:
                 sid = handles.get(op.get("h"))
                 # wire view at the moment of the call: a stream whose two END_STREAMs are not both on the wire yet has
                 # not "closed cleanly" - the reset must reach the wire (checked at the end of a settled run)
-                if sid is not None and sid in head_out and sid not in out_rst and sid not in peer_rst \
+                # (the stream exists on the wire: its HEADERS / PUSH_PROMISE were written, or the peer opened it)
+                if sid is not None and (sid in head_out or not is_local(sid, client)) and sid not in out_rst and sid not in peer_rst \
                         and not (sid in eos_written and sid in eos_fed) and sid not in must_rst:
                     must_rst[sid] = (st["i"], op.get("code", 8))
                 # the library may already have reset the stream (peer violation): then the call is a no-op
